@@ -1,0 +1,91 @@
+//! Verification hooks (cargo feature `verif`, off by default).
+//!
+//! Thread-local logical step counters with optional budgets. They let an external monitor decide
+//! "this evaluation blew up / does not terminate" on logical steps instead of on wall-clock time.
+//! Nothing here changes a result; with the feature off this module does not exist.
+
+use std::cell::Cell;
+
+/// Payload used when a budget is exceeded inside the library (unwinds with `panic_any`).
+#[derive(Debug, Clone, Copy, PartialEq, Eq)]
+pub struct VerifBudgetExceeded(pub &'static str);
+
+thread_local! {
+    static STEPS: Cell<u64> = const { Cell::new(0) };
+    static FP_ITERS: Cell<u64> = const { Cell::new(0) };
+    static STEP_CAP: Cell<u64> = const { Cell::new(u64::MAX) };
+    static FP_CAP: Cell<u64> = const { Cell::new(u64::MAX) };
+    static EXIT_ON_EXCEED: Cell<bool> = const { Cell::new(false) };
+}
+
+/// Reset both counters (the caps are kept).
+pub fn reset() {
+    STEPS.with(|c| c.set(0));
+    FP_ITERS.with(|c| c.set(0));
+}
+
+/// Set the budgets for `mk_choice` calls and fixed-point iterations (`u64::MAX` = unlimited).
+pub fn set_caps(steps: u64, fp_iters: u64) {
+    STEP_CAP.with(|c| c.set(steps));
+    FP_CAP.with(|c| c.set(fp_iters));
+}
+
+/// Number of `mk_choice` calls since the last reset.
+pub fn steps() -> u64 {
+    STEPS.with(Cell::get)
+}
+
+/// Number of fixed-point iterations since the last reset.
+pub fn fp_iters() -> u64 {
+    FP_ITERS.with(Cell::get)
+}
+
+fn exceeded(what: &'static str) -> ! {
+    if EXIT_ON_EXCEED.with(Cell::get) {
+        eprintln!("VERIF-BUDGET {what}");
+        std::process::exit(97);
+    }
+    std::panic::panic_any(VerifBudgetExceeded(what));
+}
+
+#[inline]
+pub(crate) fn tick_step() {
+    let n = STEPS.with(|c| {
+        let n = c.get().wrapping_add(1);
+        c.set(n);
+        n
+    });
+    if n > STEP_CAP.with(Cell::get) {
+        exceeded("steps");
+    }
+}
+
+#[inline]
+pub(crate) fn tick_fp() {
+    let n = FP_ITERS.with(|c| {
+        let n = c.get().wrapping_add(1);
+        c.set(n);
+        n
+    });
+    if n > FP_CAP.with(Cell::get) {
+        exceeded("fp");
+    }
+}
+
+/// For binaries: read `RSBDD_VERIF_BUDGET=<steps>,<fp_iters>`; when set, exceeding a budget prints
+/// `VERIF-BUDGET <what>` to stderr and exits with status 97.
+pub fn init_from_env() {
+    if let Ok(v) = std::env::var("RSBDD_VERIF_BUDGET") {
+        let mut parts = v.split(',');
+        let steps = parts
+            .next()
+            .and_then(|s| s.trim().parse().ok())
+            .unwrap_or(u64::MAX);
+        let fp = parts
+            .next()
+            .and_then(|s| s.trim().parse().ok())
+            .unwrap_or(u64::MAX);
+        set_caps(steps, fp);
+        EXIT_ON_EXCEED.with(|c| c.set(true));
+    }
+}
